@@ -298,11 +298,26 @@ Theorem C19_orbax_restore_missing : forall (V : Type) (file target : tree V) p v
 Proof. exact @orbax_restore_missing. Qed.
 Print Assumptions C19_orbax_restore_missing.
 
-(** probabilistic_ensemble.restore_checkpoint. *)
+(** probabilistic_ensemble.restore_checkpoint (restores into the model's own state structure). *)
 Theorem C19_tree_roundtrip_restore_checkpoint : forall (V G : Type) (m model : nmodule V G),
-  m_graph model = m_graph m -> restore_checkpoint (orbax_save m) model = m.
+  NoDup (map fst (m_params m)) -> m_graph model = m_graph m -> map fst (m_params model) = map fst (m_params m) ->
+  restore_checkpoint (orbax_save m) model = Some m.
 Proof. exact @tree_roundtrip_restore_checkpoint. Qed.
 Print Assumptions C19_tree_roundtrip_restore_checkpoint.
+
+(** restoring without a target (the code before the repair in /repo) pairs leaves by the order of their
+    *string* keys: refuted for a module with eleven list entries, although it is the identity up to ten *)
+Theorem C19_restore_untargeted_refuted :
+  exists m model : nmodule Z unit,
+    NoDup (map fst (m_params m)) /\ m_graph model = m_graph m /\ map fst (m_params model) = map fst (m_params m) /\
+    restore_untargeted (orbax_save m) model <> m.
+Proof. exact restore_untargeted_refuted. Qed.
+Print Assumptions C19_restore_untargeted_refuted.
+Theorem C19_restore_untargeted_partial : forall n, n <= 10 ->
+  restore_untargeted (orbax_save {| m_graph := tt; m_params := chain n |}) {| m_graph := tt; m_params := chain n |}
+  = {| m_graph := tt; m_params := chain n |}.
+Proof. exact restore_untargeted_small. Qed.
+Print Assumptions C19_restore_untargeted_partial.
 
 (** Extensionality: two parameter trees with the same paths and equal leaves give equal
     outputs for any forward function and any input. *)
@@ -320,6 +335,6 @@ Theorem C19_reload_same_outputs : forall (V G X Y : Type) (fwd : G -> tree V -> 
   let out (k : nmodule V G) x := fwd (m_graph k) (m_params k) x in
   (forall x, out (load_pickle (save_pickle m) (m_graph fresh_m)) x = out m x) /\
   (forall x, option_map (fun k => out k x) (orbax_reload (orbax_save m) fresh_m) = Some (out m x)) /\
-  (forall x, out (restore_checkpoint (orbax_save m) fresh_m) x = out m x).
+  (forall x, option_map (fun k => out k x) (restore_checkpoint (orbax_save m) fresh_m) = Some (out m x)).
 Proof. exact @reload_same_outputs. Qed.
 Print Assumptions C19_reload_same_outputs.
